@@ -1203,6 +1203,9 @@ func genCase(r *rand.Rand, w *bufio.Writer, name string, foreignRate int) {
 			case k < 90:
 				g.emit("cancelresp %d", v.id)
 				v.state = "c"
+				if g.r.Intn(2) == 0 {
+					g.emit("start %d %d", v.p, v.id) // the task is still queued: the worker gets an empty task
+				}
 			default:
 				g.emit("updateresp %d", v.id)
 			}
